@@ -32,11 +32,14 @@ def build(rng, kind, axi):
     d = mesh_diameter(W * H / 120)
     V = dict(c0=0.0, c1=rng.choice([5.0, -3.0, 12.0]), c2=rng.choice([2.0, -7.0, 1.0]))
     if kind == "fee":
-        mats = [B.prop("blockprops", name="bg", ex=1.0, ey=1.0, qv=0.0), B.prop("blockprops", name="d1", ex=3.0, ey=2.0, qv=0.0),
+        # the background touches the conductors: make it anisotropic most of the time (charge vs. energy)
+        ebg = rng.choice([(1.0, 1.0), (2.0, 5.0), (4.0, 1.5), (1.0, 3.0)])
+        mats = [B.prop("blockprops", name="bg", ex=ebg[0], ey=ebg[1], qv=0.0), B.prop("blockprops", name="d1", ex=3.0, ey=2.0, qv=0.0),
                 B.prop("blockprops", name="d2", ex=5.0, ey=5.0, qv=0.0)]
         cs = [B.prop("circuits", name="c0", type=1, V=V["c0"]), B.prop("circuits", name="c1", type=1, V=V["c1"]), B.prop("circuits", name="c2", type=1, V=V["c2"])]
     elif kind == "feh":
-        mats = [B.prop("blockprops", name="bg", kx=1.0, ky=1.0, kt=0.0, qv=0.0), B.prop("blockprops", name="d1", kx=3.0, ky=2.0, kt=0.0, qv=0.0),
+        kbg = rng.choice([(1.0, 1.0), (2.0, 5.0), (4.0, 1.5)])
+        mats = [B.prop("blockprops", name="bg", kx=kbg[0], ky=kbg[1], kt=0.0, qv=0.0), B.prop("blockprops", name="d1", kx=3.0, ky=2.0, kt=0.0, qv=0.0),
                 B.prop("blockprops", name="d2", kx=5.0, ky=5.0, kt=0.0, qv=0.0)]
         cs = [B.prop("circuits", name="c0", type=1, V=300.0), B.prop("circuits", name="c1", type=1, V=300.0 + V["c1"]), B.prop("circuits", name="c2", type=1, V=300.0 + V["c2"])]
     else:
@@ -67,7 +70,7 @@ def build(rng, kind, axi):
     p["regs"] = regs
     p["outer"] = (x0, y0, x0 + W, y0 + H)
     p["V"] = V
-    p["features"] = [kind, "axi" if axi else "planar", p["units"]]
+    p["features"] = [kind, "axi" if axi else "planar", p["units"]] + (["bg-eps%g/%g" % ebg] if kind == "fee" else [])
     return p
 
 
